@@ -4,6 +4,7 @@ import io
 import json
 import os
 import re
+import sys
 
 from pydiffx.errors import DiffXParseError
 from pydiffx.options import SpecVersion
@@ -175,6 +176,14 @@ class DiffXReader(object):
                 except KeyError:
                     raise DiffXParseError(
                         'Expected section "%s" to have a length option'
+                        % section_id,
+                        linenum=linenum)
+
+                if (not isinstance(length, int) or
+                    not 0 <= length <= sys.maxsize):
+                    raise DiffXParseError(
+                        'Expected the length option of section "%s" to be a '
+                        'non-negative integer'
                         % section_id,
                         linenum=linenum)
 
